@@ -36,7 +36,7 @@ def battery(seed, n):
 
     rng = random.Random("battery/%d" % seed)
     items = []
-    kinds = ["tree", "doc", "doc", "textdoc", "headc", "jsx", "css", "classes", "attrs", "typed_attrs", "jsonmode"]
+    kinds = ["tree", "doc", "doc", "textdoc", "headc", "jsx", "css", "classes", "attrs", "typed_attrs", "jsonmode", "retry"]
     for i in range(n):
         k = kinds[i % len(kinds)]
         if k == "tree":
@@ -75,6 +75,10 @@ def battery(seed, n):
             for _ in range(rng.randint(3, 10)):
                 ops.append(["add" if rng.random() < 0.6 else "remove", rng.choice(c16.TOKENS[:8]), rng.random() < 0.5])
             items.append((k, ops))
+        elif k == "retry":
+            # a rendering that fails inside a nested tagify(), then the same tree rendered again
+            inner = {"k": "tf", "as": "flaky", "ret": "list", "c": [{"k": "text", "s": "f%d" % i}, gen.TAG("b", ws=False)]}
+            items.append((k, gen.TAG("div", gen.TAG("span", {"k": "text", "s": "p"}, inner, ws=False), gen.TAG("p", {"k": "text", "s": "q"}))))
         elif k == "jsonmode":
             # str() in JSON dependency mode; dependencies across items share name and version but differ in content
             deps = [{"k": "dep", "name": rng.choice(["jq", "bs"]), "version": rng.choice(["1.0", "2.0"]),
@@ -92,6 +96,14 @@ def battery(seed, n):
 
 
 def run_item(kind, r):
+    """One battery item; an exception is part of the observable outcome (it must not depend on history either)."""
+    try:
+        return _run_item(kind, r)
+    except Exception as e:
+        return {"html": "raised " + type(e).__name__ + ": " + str(e)[:80]}
+
+
+def _run_item(kind, r):
     from ..loader import ht
     from .. import gen
     from . import c11, c13, c20
@@ -126,6 +138,15 @@ def run_item(kind, r):
             else:
                 t.remove_class(tok)
         return {"html": _d(str(t))}
+    if kind == "retry":
+        t = gen.build(r)
+        outs = []
+        for _ in range(3):
+            try:
+                outs.append(t.render()["html"])
+            except Exception as e:
+                outs.append("raised " + type(e).__name__ + ": " + str(e)[:60])
+        return {"html": _d("|".join(outs)), "attempts": [o[:24] for o in outs]}
     if kind == "jsonmode":
         import htmltools as _h
 
@@ -170,8 +191,13 @@ def child_main(argv):
         inter = {}
         for i in range(n):
             # unrelated work between items: renders, documents, head_content with other payloads, a dependency resolution
-            str(ht.div(ht.span("noise %d" % i), class_="n%d" % i))
-            ht.HTMLDocument(ht.div(ht.head_content(ht.tags.title("noise%d" % (i % 5))), ht.HTMLDependency("noise%d" % (i % 7), "1.%d" % i))).render()
+            try:
+                str(ht.div(ht.span("noise %d" % i), class_="n%d" % i))
+                ht.HTMLDocument(ht.div(ht.head_content(ht.tags.title("noise%d" % (i % 5))), ht.HTMLDependency("noise%d" % (i % 7), "1.%d" % i))).render()
+            except Exception as e:
+                # unrelated work failing because of what ran before it is history dependence as well
+                inter[str(i)] = {"html": "unrelated render raised " + type(e).__name__ + ": " + str(e)[:80]}
+                continue
             inter[str(i)] = run_item(*items[i])
         res["interleaved"] = inter
     res["hashseed"] = os.environ.get("PYTHONHASHSEED")
@@ -218,7 +244,7 @@ def run(ctx):
                 v = json.dumps(o[order][str(i)], sort_keys=True)
                 seen.setdefault(v, []).append((str(hs), order))
                 ctx.count("monitor.digest_comparisons")
-        ctx.case((kind, recipe), nontrivial=kind in ("doc", "textdoc", "headc", "attrs", "classes", "css", "jsx", "typed_attrs", "jsonmode"))
+        ctx.case((kind, recipe), nontrivial=kind in ("doc", "textdoc", "headc", "attrs", "classes", "css", "jsx", "typed_attrs", "jsonmode", "retry"))
         ctx.state("battery_kinds", kind)
         if len(seen) > 1:
             groups = list(seen.values())
